@@ -396,6 +396,19 @@ func (w *World) sessData(s *MSess, body []byte, final bool, declared string, o c
 	if o.sleepMs > 0 && !mustAlive0 {
 		// cannot classify a slow request on a session that may already be gone
 	}
+	if s.tainted || w.faultOverlapped(r) {
+		// a disk fault hit this session: its further behaviour is not modelled (it may fail or lose un-acknowledged data);
+		// a 201 is still checked through the digest oracles when the content is read back
+		s.tainted, s.maybeGone = true, true
+		if final && r.Code == 201 && validDigest(declared) {
+			full := append(append([]byte(nil), s.data...), body...)
+			if digestOf(algoOf(declared), full) == declared {
+				s.open, s.endedHow = false, "completion"
+				w.storeBlob(w.m.repo(s.repo), declared, full, s.created, w.now())
+			}
+		}
+		return r
+	}
 	if w.handleLiveness(s, r, what) {
 		return r
 	}
